@@ -53,10 +53,9 @@ theorem decRec_encRec (g : GroupStatusData) (h : WFRec g) (rest : Bytes) :
       rw [e1, e2, e3, hps', hcm', hbat']
       cases turbo <;> cases spill <;> simp <;> omega
     | some t =>
-      obtain ⟨ht1, ht2, ht3⟩ := ht t rfl
+      obtain ⟨ht1, ht2⟩ := ht t rfl
       obtain ⟨r, hr⟩ : ∃ r : Nat, t + 500 = (r : Int) := ⟨(t + 500).toNat, by omega⟩
-      have hr1 : r < 2048 := by omega
-      have hr2 : r ≠ 2040 := by omega
+      have hr1 : r < 2040 := by omega
       have htn : (t + 500).toNat = r := by omega
       simp only [encRec, encSetPoint, encTemp, encodeTemperature, htn, be16Bytes, boolToBit,
         List.cons_append, List.nil_append, decRec, be16, bitToBool, decTemp, TEMP_UNAVAILABLE]
